@@ -49,6 +49,7 @@ type Result struct {
 	LexFail string  `json:"lexfail,omitempty"` // scanner misbehaved (panic, unknown message, no progress)
 	Proto   string  `json:"proto,omitempty"`   // sha256 of the structural dump
 	// parse stage alone: 0 not asked, 1 accepted, 2 rejected (*parse.Error), 3 anything else
+	Unstable   string `json:"unstable,omitempty"` // repeated loads of the same bytes ended differently
 	ParseStage int    `json:"pstage,omitempty"`
 	ParseMsg   string `json:"pmsg,omitempty"`
 	Micros     int64  `json:"us"`
